@@ -257,6 +257,43 @@ func init() {
 				n.Add(pI(i), StrV(pick(r, "a", "abcde", "bcd")))
 			}
 		}},
+		AtomKind{Name: "minInclusiveFraction", PerValue: true, Constraint: func(i int) []Constraint { return []Constraint{CScalar("minInclusive", RawScalar("2.5"))} },
+			Assign: func(n *Node, i int, t bool, r *rand.Rand) {
+				if t {
+					n.Add(pI(i), pick(r, FloatV(2.5), FloatV(3.75), IntV(3)))
+				} else {
+					n.Add(pI(i), pick(r, FloatV(2.25), IntV(2), FloatV(-0.5)))
+				}
+			}},
+		AtomKind{Name: "maxExclusiveFraction", PerValue: true, Constraint: func(i int) []Constraint { return []Constraint{CScalar("maxExclusive", RawScalar("-1.5"))} },
+			Assign: func(n *Node, i int, t bool, r *rand.Rand) {
+				if t {
+					n.Add(pI(i), pick(r, FloatV(-1.75), IntV(-2)))
+				} else {
+					n.Add(pI(i), pick(r, FloatV(-1.5), IntV(-1), FloatV(0.5)))
+				}
+			}},
+		AtomKind{Name: "datatypeFloat", PerValue: true, Constraint: func(i int) []Constraint { return []Constraint{CScalar("datatype", Str("xsd.float"))} },
+			Assign: func(n *Node, i int, t bool, r *rand.Rand) {
+				if t {
+					n.Add(pI(i), FloatV(2.5))
+				} else {
+					n.Add(pI(i), pick(r, StrV("2.5"), BoolV(true)))
+				}
+			}},
+		AtomKind{Name: "inBoolean", PerValue: true, Constraint: func(i int) []Constraint { return []Constraint{{Key: "in", Value: YSeqOf(Bool(true))}} },
+			Assign: func(n *Node, i int, t bool, r *rand.Rand) { n.Add(pI(i), BoolV(t)) }},
+		// KNOWN FINDING (known_findings.json, key in-with-fractional-number): the tool compares the string forms of
+		// numbers after truncating them to integers, so a fractional number never equals a listed fractional number
+		AtomKind{Name: "inFractional", PerValue: true, Constraint: func(i int) []Constraint {
+			return []Constraint{{Key: "in", Value: YSeqOf(RawScalar("2.5"), RawScalar("7.25"))}}
+		}, Assign: func(n *Node, i int, t bool, r *rand.Rand) {
+			if t {
+				n.Add(pI(i), pick(r, FloatV(2.5), FloatV(7.25)))
+			} else {
+				n.Add(pI(i), pick(r, FloatV(3.5), FloatV(2.75)))
+			}
+		}},
 		AtomKind{Name: "countRange", Constraint: func(i int) []Constraint {
 			return []Constraint{CScalar("minCount", Int(1)), CScalar("maxCount", Int(2))}
 		}, Assign: func(n *Node, i int, t bool, r *rand.Rand) {
